@@ -45,13 +45,8 @@ def run(R):
     ok, badthm = R.prove()
     quick = R.tier == "quick"
     ops, meta = CS.gen_stream(R, 2500 if quick else 60000, entries=("rn", "r"), big_frac=0.06)
-    # results at the limit of the output field: the three methods whose salt length is bounded only by CRYPT_OUTPUT_SIZE, every salt
-    # length that puts the result within a few characters of 384, in every spelling of the salt's end (seeded/C06b)
-    for m, head, alpha in (("sunmd5", b"$md5$", S.A64), ("sunmd5", b"$md5,rounds=7$", S.A64), ("sha1crypt", b"$sha1$3$", S.A64), ("scrypt", b"$7$66..../....", S.A64)):
-        for sl in (range(330, 372) if not quick else list(range(340, 364))):
-            salt = S.rs(R.rng, alpha, sl)
-            for end in (b"", b"$", b"$$", b"$$x", b"$" + S.rs(R.rng, S.A64, 22)):
-                ops.append(CS.crypt_op(R.rng.choice(["rn", "r"]), 0, b"pw", head + salt + end)); meta.append((m, "limit:" + ("bare" if not end else "dollar" * end.count(b"$")), 2, len(head) + sl + len(end)))
+    # results at the limit of the output field (seeded/C06b): see cryptstream.limit_sweep
+    lo, lm = CS.limit_sweep(R, quick); ops += lo; meta += lm
     # fixed structural corpus, whatever the seed: every method's canonical setting with each spelling of what may follow the salt - nothing, `$`,
     # `$$`, an extra `$`-separated field of alphabet / of other passwd-safe characters, a complete hash followed by more text - and the complete
     # hash of the bare setting; whatever succeeds must have the documented shape (seeded/C06c was caught or missed depending on the seed)
